@@ -92,12 +92,19 @@ def gen_history(rng, tier, threaded):
             si = rng.randrange(len(schemas))
             out.append([rng.choice(OPS), si, rng.randrange(len(schemas[si])), rng.randrange(len(docs))])
         return out
+    def ops_with_mutation(n):
+        out = ops(n)
+        # the caller edits its own documents in place between validations: later calls must see the
+        # new content (nothing may be remembered about a document from an earlier call)
+        for _ in range(rng.randint(0, 3)):
+            out.insert(rng.randrange(len(out) + 1), ["mutate", 0, 0, rng.randrange(len(docs)), rng.randrange(10**6)])
+        return out
     if threaded:
         nt = rng.randint(2, 8)
         return {"schemas": schemas, "docs": docs, "threads": [ops(rng.randint(4, 12)) for _ in range(nt)],
                 "p": rng.choice([0.05, 0.1, 0.3]), "yseed": rng.randrange(10**9)}
     n = 50 if quick else rng.choice([50, 200, 1000])
-    return {"schemas": schemas, "docs": docs, "ops": ops(rng.randint(10, n))}
+    return {"schemas": schemas, "docs": docs, "ops": ops_with_mutation(rng.randint(10, n))}
 
 
 def strata(tier):
@@ -128,6 +135,33 @@ def required(m, tier):
     if m["unprotected_writes"] < 1000:
         out.append("write tracer saw almost no writes at all (is it installed?)")
     return out
+
+
+def mutate_in_place(seed, d):
+    """deterministic small edit of a document (the same seed edits an equal document identically)"""
+    rng = G.rng_for("c08-mutate", seed)
+    conts = [n for _, n in G.all_nodes(d) if type(n) in (dict, list) and n]
+    if not conts:
+        return
+    c = rng.choice(conts)
+    if type(c) is dict:
+        k = rng.choice(list(c))
+        r = rng.random()
+        if r < 0.6 or len(c) == 1:
+            c[k] = vary(rng, c[k], 1.0) if type(c[k]) not in (dict, list) else rng.choice([0, "x", None])
+        elif r < 0.8:
+            del c[k]
+        else:
+            c["added"] = rng.choice([1, "2", [3], None])
+    else:
+        i = rng.randrange(len(c))
+        r = rng.random()
+        if r < 0.6 or len(c) == 1:
+            c[i] = vary(rng, c[i], 1.0) if type(c[i]) not in (dict, list) else rng.choice([0, "x", None])
+        elif r < 0.8:
+            del c[i]
+        else:
+            c.append(rng.choice([1, "2", None]))
 
 
 def result_fp(op, out):
@@ -166,14 +200,18 @@ def run(case, ctx):
     all_ops = [o for t in case["threads"] for o in t] if threaded else case["ops"]
     # 1. fresh-object results, computed before the history starts
     fresh = {}
-    for op, si, ri, di in all_ops:
-        k = (op, si, ri, di)
-        if k not in fresh:
-            ok, s = call(build.schema_obj, schemas_t[si])
-            if not ok:
-                ctx.violate(f"C08/construct:{s.type}", f"{s!r}")
-                return
-            fresh[k] = result_fp(op, do(op, s, ri, M.deep_copy(docs_t[di])))
+    ref_docs = [M.deep_copy(d) for d in docs_t]  # reference content of each document, edited in step with the shared one
+
+    def fresh_result(op, si, ri, di):
+        ok, s = call(build.schema_obj, schemas_t[si])
+        if not ok:
+            return ("construct", s.type)
+        return result_fp(op, do(op, s, ri, M.deep_copy(ref_docs[di])))
+    if threaded:
+        for op, si, ri, di in all_ops:
+            k = (op, si, ri, di)
+            if k not in fresh:
+                fresh[k] = fresh_result(op, si, ri, di)
     # 2. the shared pool
     ok, schemas = call(lambda: [build.schema_obj(s) for s in schemas_t])
     if not ok:
@@ -189,10 +227,11 @@ def run(case, ctx):
     mismatches = []
 
     def one(op, si, ri, di, tag):
+        want = fresh[(op, si, ri, di)] if threaded else fresh_result(op, si, ri, di)
         out = do(op, schemas[si], ri, docs[di])
         fpv = result_fp(op, out)
-        if fpv != fresh[(op, si, ri, di)]:
-            mismatches.append((tag, op, si, ri, di, fpv, fresh[(op, si, ri, di)]))
+        if fpv != want:
+            mismatches.append((tag, op, si, ri, di, fpv, want))
         if out[0] and op == "validate":
             c15.scribble(out[1].cast_data)  # mutation probe on the returned copy
         elif out[0] and op == "test" and schemas[si].rules[ri % len(schemas[si].rules)].cast:
@@ -232,7 +271,17 @@ def run(case, ctx):
             uses[("s", si)] = uses.get(("s", si), 0) + 1
             uses[("d", di)] = uses.get(("d", di), 0) + 1
     else:
-        for n, (op, si, ri, di) in enumerate(all_ops):
+        for n, step in enumerate(all_ops):
+            if step[0] == "mutate":
+                _, _, _, di, seed = step
+                mutate_in_place(seed, docs[di])
+                mutate_in_place(seed, ref_docs[di])
+                if not docs[di]:
+                    docs[di], ref_docs[di] = {"refilled": 1}, {"refilled": 1}
+                fp_d[di] = canon(docs[di])
+                ctx.count("in-place-document-edits")
+                continue
+            op, si, ri, di = step
             one(op, si, ri, di, f"#{n}")
             uses[("s", si)] = uses.get(("s", si), 0) + 1
             uses[("d", di)] = uses.get(("d", di), 0) + 1
@@ -250,7 +299,7 @@ def run(case, ctx):
             ctx.violate("C08/fingerprint:schema", f"schema {i} changed during the history (rules={schemas_t[i]})")
     for i, d in enumerate(docs):
         if canon(d) != fp_d[i]:
-            ctx.violate("C08/fingerprint:document", f"document {i} changed at {first_diff(docs_t[i], d)}")
+            ctx.violate("C08/fingerprint:document", f"document {i} changed at {first_diff(ref_docs[i], d)}")
     for name, detail in mon.CONTRACTS.take():
         ctx.violate(f"C08/contract:{name}", detail)
     ctx.count("histories")
